@@ -570,6 +570,7 @@ Definition wf_fn_fields (m : module) : bool :=
 Definition wf_fn_names (m : module) : bool :=
   forallb (fun f => match nthN (m_strings m) (fn_name f) with Some s => fname_okb s | None => false end) (m_funcs m).
 Definition wf_layout (m : module) : bool := layout_okb (m_funcs m) 0 (lenN (m_code m)) && (lenN (m_code m) <? 4294967296).
+Definition wf_code_bytes (m : module) : bool := forallb (fun c => c <? 256) (m_code m).
 Definition wf_code_decodes (m : module) : bool := all_codes m code_decodes.
 Definition wf_code_targets (m : module) : bool := all_codes m code_targets.
 Definition wf_code_boundaries (m : module) : bool := all_codes m code_boundaries.
@@ -580,7 +581,7 @@ Definition wf_label_total (m : module) : bool :=
 Definition wf_entry (m : module) : bool := (m_entry m <? 4294967296).
 Definition wf_conjuncts (m : module) : list bool :=
   [ wf_str_nul m; wf_str_nl m; wf_str_comment m; wf_str_len m; wf_str_bytes m; wf_distinct m; wf_fn_fields m; wf_fn_names m;
-    wf_layout m; wf_code_decodes m; wf_code_targets m; wf_code_boundaries m; wf_code_patches m; wf_code_f64 m;
+    wf_layout m; wf_code_bytes m; wf_code_decodes m; wf_code_targets m; wf_code_boundaries m; wf_code_patches m; wf_code_f64 m;
     wf_label_total m; wf_entry m ].
 Definition wf_moduleb (m : module) : bool := forallb (fun b => b) (wf_conjuncts m).
 
